@@ -471,7 +471,7 @@ class Qobj:
         return Qobj(
             _data.matmul(self._data, other._data),
             dims=new_dims,
-            isunitary=self._isunitary and other._isunitary,
+            isunitary=(self._isunitary and other._isunitary) or None,
             copy=False
         )
 
